@@ -1,6 +1,11 @@
 HOOK_COMMITS = ["df48cf5"]
 NOT_APPLICABLE = {}
 TEXTS = {
+ "C05": {
+  "technique": "fault injection driven by property-based generation (rapid): generated commit histories x exhaustive store-failure plans in-process, and kill points / errno injection at every traced file system call of a child process under strace, plus a trace-shape check for power-loss safety",
+  "level_text": "Fault enumeration over generated commit histories: all 3^n store-failure plans per history in-process; for the real file store a child process is killed before each traced file system call (sampled in the quick tier, all in the thorough tier) and has errno failures injected, and the parent checks with lungo's own loader that the file is exactly the old or the new state, that acknowledged commits survive, that errors are reported and recovered from; the traced protocol is checked against the conditions that make it safe under a POSIX-style power-loss model.",
+  "level_note": "Needs strace (pre-installed). Power loss is decided on the syscall protocol (temp file, fsync before rename, directory fsync), not on block-device states; kills are at syscall granularity.",
+ },
  "C16": {
   "technique": "property-based concurrency and fault-injection testing (rapid): generated actor scripts with injected faults and a schedule-perturbation tape at the engine's lock-release points; state-based wedge oracle (probe write, closed errors, goroutine count)",
   "level_text": "Generated multi-actor scripts over begins, commits, aborts, session operations, cancelled contexts, failing stores, panicking callbacks, streams and shutdown, executed on real goroutines with perturbation at the windows where the engine has dropped its lock; the oracle checks the single-writer invariant, the absence of panics and deadlocks, that the writer slot is free afterwards (probe write), and that shutdown completes with closed errors and no leftover goroutines. The thorough tier adds -race. Sampling of interleavings, not enumeration.",
